@@ -54,6 +54,9 @@ ROWS = [
     Row("40", "selalt40mcp", 1, None, 2, 13, 16),
     Row("40", "selalt40fms", 14, None, 15, 26, 16),
     Row("40", "p40baro", 27, None, 28, 39, Fr(1, 10), 800),
+    # deprecated aliases still exported by pyModeS.commb
+    Row("40", "alt40mcp", 1, None, 2, 13, 16),
+    Row("40", "alt40fms", 14, None, 15, 26, 16),
     # BDS 5,0 track and turn report
     Row("50", "roll50", 1, 2, 3, 11, Fr(45, 256)),
     Row("50", "trk50", 12, 13, 14, 23, Fr(90, 512), wrap=True),
